@@ -6,9 +6,16 @@ Every tools/gen_*.py module exposes GENERATORS = {GenFileName: function(repo_roo
 
 Fail-closed: any AST shape that is not recognised makes the corresponding Gen file
 contain `Definition gen_failed_<Name> : False := I.` which does not type-check, so
-nothing that depends on the table can be built from a stale copy.
+nothing that depends on the table can be built from a stale copy -
 
-usage: pygen.py <repo-root> <coq-dir>
+unless the caller asks for the committed snapshot (--snapshot-fallback): then the table as it
+was generated from the pinned source (gen_snapshot/<Name>.v, written by `pygen.py --write-snapshot`)
+is used, the line `pygen: SNAPSHOT <Name>: <why>` is printed, and the caller (harness/core.py) must
+treat tie 1 as absent for every property that depends on the table: the model with that table is
+then a hand-written model, tied to the source by the (widened) correspondence check alone.
+
+usage: pygen.py [--snapshot-fallback] <repo-root> <coq-dir>
+       pygen.py --write-snapshot <repo-root>
 """
 import glob
 import importlib
@@ -30,17 +37,44 @@ def generators():
     return gens
 
 
+SNAP = os.path.join(os.path.dirname(HERE), 'gen_snapshot')
+
+
+def write_snapshot(repo):
+    import subprocess
+    os.makedirs(SNAP, exist_ok=True)
+    for name, fn in sorted(generators().items()):
+        with open(os.path.join(SNAP, name + '.v'), 'w') as f:
+            f.write(fn(repo))
+    head = subprocess.run(['git', '-C', repo, 'rev-parse', 'HEAD'], capture_output=True, text=True).stdout.strip()
+    with open(os.path.join(SNAP, 'SOURCE'), 'w') as f:
+        f.write(head + '\n')
+    print('pygen: snapshot of %d tables from %s' % (len(generators()), head))
+    return 0
+
+
 def main():
-    repo, coqdir = sys.argv[1], sys.argv[2]
+    args = [a for a in sys.argv[1:] if not a.startswith('--')]
+    if '--write-snapshot' in sys.argv:
+        return write_snapshot(args[0])
+    fallback = '--snapshot-fallback' in sys.argv
+    repo, coqdir = args[0], args[1]
+    snapped = []
     os.makedirs(os.path.join(coqdir, 'Gen'), exist_ok=True)
     failed = []
     for name, fn in sorted(generators().items()):
         try:
             text = fn(repo)
         except (GenFail, SyntaxError, OSError, AttributeError, IndexError, KeyError, TypeError, ValueError) as e:
-            failed.append((name, repr(e)))
-            text = '(* GENERATION FAILED: %s *)\nDefinition gen_failed_%s : False := I.\n' % (
-                repr(e).replace('*)', '* )'), name)
+            sp = os.path.join(SNAP, name + '.v')
+            if fallback and os.path.exists(sp):
+                snapped.append((name, repr(e)))
+                with open(sp) as f:
+                    text = f.read()
+            else:
+                failed.append((name, repr(e)))
+                text = '(* GENERATION FAILED: %s *)\nDefinition gen_failed_%s : False := I.\n' % (
+                    repr(e).replace('*)', '* )'), name)
         p = os.path.join(coqdir, 'Gen', name + '.v')
         old = None
         if os.path.exists(p):
@@ -52,6 +86,8 @@ def main():
             print("pygen: wrote Gen/%s.v" % name)
     for name, why in failed:
         print("pygen: FAILED %s: %s" % (name, why))
+    for name, why in snapped:
+        print("pygen: SNAPSHOT %s: %s" % (name, why))
     return 0
 
 
